@@ -23,6 +23,18 @@ type kind struct {
 	bits   uint
 }
 
+// defined integer types: a type switch on the predeclared types does not match them
+type (
+	dU8  uint8
+	dI8  int8
+	dU32 uint32
+	dI32 int32
+	dU64 uint64
+	dI64 int64
+)
+
+var definedKinds = []kind{{"du8", false, 8}, {"di8", true, 8}, {"du32", false, 32}, {"di32", true, 32}, {"du64", false, 64}, {"di64", true, 64}}
+
 var kinds = []kind{{"u8", false, 8}, {"i8", true, 8}, {"u16", false, 16}, {"i16", true, 16}, {"u32", false, 32}, {"i32", true, 32}, {"u64", false, 64}, {"i64", true, 64}}
 
 func (k kind) min() *big.Int {
@@ -129,6 +141,8 @@ func dispatch(f string, k string, op string, x, y *big.Int) string {
 	table := map[string][2]fn{
 		"u8": {safe[uint8], raw[uint8]}, "i8": {safe[int8], raw[int8]}, "u16": {safe[uint16], raw[uint16]}, "i16": {safe[int16], raw[int16]},
 		"u32": {safe[uint32], raw[uint32]}, "i32": {safe[int32], raw[int32]}, "u64": {safe[uint64], raw[uint64]}, "i64": {safe[int64], raw[int64]},
+		"du8": {safe[dU8], raw[dU8]}, "di8": {safe[dI8], raw[dI8]}, "du32": {safe[dU32], raw[dU32]}, "di32": {safe[dI32], raw[dI32]},
+		"du64": {safe[dU64], raw[dU64]}, "di64": {safe[dI64], raw[dI64]},
 	}
 	e, ok := table[k]
 	if !ok {
@@ -142,7 +156,7 @@ func dispatch(f string, k string, op string, x, y *big.Int) string {
 }
 
 func kindOf(name string) kind {
-	for _, k := range kinds {
+	for _, k := range append(append([]kind(nil), kinds...), definedKinds...) {
 		if k.name == name {
 			return k
 		}
@@ -407,7 +421,9 @@ func main() {
 	r.Case(0)
 	for _, l := range []string{"safe shl u8 3 7", "safe mul i8 -1 -128", "safe mul i8 -128 -1", "safe div i8 -128 -1", "safe shl i8 -1 1", "safe shl i8 64 1",
 		"safe shl u8 1 8", "safe shl u8 0 200", "muli64 -9223372036854775808 -1", "muli64 -9223372036854775808 1", "muli64 3037000500 3037000500",
-		"muldiv 18446744073709551615 18446744073709551615 18446744073709551615", "muldiv 1 1 0", "mulu64 4294967296 4294967296"} {
+		"muldiv 18446744073709551615 18446744073709551615 18446744073709551615", "muldiv 1 1 0", "mulu64 4294967296 4294967296",
+		"safe mul du64 18446744073709551615 2", "safe mul di64 -9223372036854775808 -1", "safe mul i64 3037000500 3037000500", "safe div u8 128 255",
+		"safe div u64 9223372036854775808 18446744073709551615", "safe add du8 255 1", "safe shl di8 64 1"} {
 		emit(r, l)
 	}
 	// exhaustive 8-bit
@@ -446,7 +462,7 @@ func main() {
 	}
 	// sampled wide types
 	n := 2000 * r.Scale
-	for _, k := range kinds[2:] {
+	for _, k := range append(append([]kind(nil), kinds[2:]...), definedKinds...) {
 		for i := 0; i < n; i++ {
 			if i%100 == 0 {
 				_, sub := r.Rng.Fork()
